@@ -81,16 +81,19 @@ func c10Run(c *work.Ctx, pathOnly bool) {
 		for _, variant := range []struct {
 			poolFresh bool
 			prologue  bool
-		}{{false, false}, {true, false}, {false, true}} {
+			warm      bool
+		}{{false, false, false}, {true, false, false}, {false, true, false}, {false, false, true}} {
 			poolFresh := variant.poolFresh
 			ex := &explore.Explorer{Bound: bound}
 			if len(sc.idx) > 2 {
 				// three goroutines: one preemption less (the cost grows with the cube of the execution length)
 				ex.Bound = bound - 1
 			}
-			if variant.prologue {
+			if variant.prologue || variant.warm {
 				// a history of failed calls first (what they leave in the pools and caches is what the
-				// goroutines start from); one preemption fewer keeps the cost of this variant low
+				// goroutines start from); one preemption fewer keeps the cost of this variant low.
+				// warm: every call of the scenario has run once, alone, before the goroutines start (caches,
+				// memoised last-used entries and pools are in the state a long-running program has them in)
 				ex.Bound = bound - 1
 			}
 			stop := false
@@ -99,6 +102,9 @@ func c10Run(c *work.Ctx, pathOnly bool) {
 				id := fmt.Sprintf("%s poolFresh=%v", sname, poolFresh)
 				if variant.prologue {
 					id += " after failed calls"
+				}
+				if variant.warm {
+					id += " after each call ran once alone"
 				}
 				if !c.BeginS(id) {
 					return
@@ -109,6 +115,18 @@ func c10Run(c *work.Ctx, pathOnly bool) {
 					c10Prologue()
 				}
 				sh := c10Fresh()
+				if variant.warm {
+					done := map[int]bool{}
+					for _, ci := range sc.idx {
+						if !done[ci] {
+							done[ci] = true
+							func() {
+								defer func() { _ = recover() }()
+								calls[ci].run(nil, sh)
+							}()
+						}
+					}
+				}
 				got := make([]string, len(sc.idx))
 				var bodies []func(s *sched.Sched)
 				for k, ci := range sc.idx {
